@@ -60,6 +60,14 @@ AllGood == \A t \in Trees : Count(t) = NSeg(t) /\ \A i \in 1..Count(t) : applied
 BitmapAccComplete == Count("bitmap") = NSeg("bitmap") /\ \A i \in 1..Count("bitmap") : applied["bitmap"][i]
 Complete == bmFinal /\ \A t \in PTrees : Count(t) = NSeg(t)        \* check_progress
 
+\* The bitmap MMR the receiver must expect for an archive header with nOutputs output leaves, by definition:
+\* one 1024-bit chunk per started 1024 leaves, MMR size of that many leaves (closed form of MMR.tla, shown
+\* equal to the construction by C07).  Desegmenter::calc_bitmap_mmr_sizes / expected_bitmap_mmr_size and the
+\* serving side's BitmapAccumulator must both agree with it (Cfg.size_after["bitmap"] is derived from it).
+ChunkBits == 1024
+BitmapChunks(nOutputs)          == CeilDiv(nOutputs, ChunkBits)
+ExpectedBitmapMMRSize(nOutputs) == M!InsertionToPmmrIndexC(BitmapChunks(nOutputs))
+
 \* next_required_*_segment_index, 0-based, -1 = None
 NextRequired(t) ==
   IF t = "bitmap"
@@ -109,7 +117,7 @@ RECURSIVE Batch(_, _, _)
 Batch(t, from, n) == IF n = 0 \/ from \notin CachedIdx(t) THEN <<>> ELSE <<from>> \o Batch(t, from + 1, n - 1)
 
 GoodOf(t, i) == (CHOOSE e \in cache[t] : e.idx = i).good
-ToSet(sq) == {sq[i] : i \in 1..Len(sq)}
+SeqRange(sq) == {sq[i] : i \in 1..Len(sq)}
 RECURSIVE Flags(_, _, _)
 \* segments below the applied count are re-applications (idempotent), the others extend the tree.  A fully
 \* pruned segment is applied as the pruned subtree root above it (push_pruned_subtree), which stands for
@@ -131,7 +139,7 @@ ApplyNext ==
      ELSE /\ bmFinal' = TRUE
           /\ LET b == [t \in PTrees |-> IF NextRequired(t) = -1 THEN <<>> ELSE Batch(t, NextRequired(t), BatchSize)]
              IN /\ applied' = [t \in Trees |-> IF t \in PTrees THEN applied[t] \o Flags(t, b[t], Count(t)) ELSE applied[t]]
-                /\ cache' = [t \in Trees |-> IF t \in PTrees THEN {e \in cache[t] : e.idx \notin ToSet(b[t])} ELSE cache[t]]
+                /\ cache' = [t \in Trees |-> IF t \in PTrees THEN {e \in cache[t] : e.idx \notin SeqRange(b[t])} ELSE cache[t]]
   /\ UNCHANGED <<Cfg, finalised>>
 
 Finalize ==
